@@ -6,7 +6,8 @@ from .common import *
 LEVEL = 'proof'
 ASSUMPTIONS = ["hook H2 counts (does not panic on) every byte slice at the unsafe conversion that is not valid UTF-8; the harness reads the counter after every case",
                "the byte-level model of next_nstr is Gosyn/Model/Utf8.lean; its agreement with scanner.rs is by reading (8 lines) + this hook"]
-ALPHA = ['a', 'é', '世', '😀', '+', '<', '=', '&', '.', '0', '1', "'", '"', ' ', '\u00a0', '\u3000']   # the last two: 2- and 3-byte blanks (char::is_whitespace)
+ALPHA = ['a', 'é', '世', '😀', '+', '<', '=', '&', '.', '0', '1', "'", '"', ' ', '\u00a0', '\u3000',   # 2- and 3-byte blanks (char::is_whitespace)
+         '\u0080', '\u0800', '\U00010000']   # the first code point of each encoded length (boundaries of any ASCII / width shortcut)
 
 
 def died(chk, cases, lines):
